@@ -97,3 +97,16 @@ __CPROVER_assigns(g_gcalls)
 __CPROVER_ensures(g_gcalls == 1 && __CPROVER_return_value == g_guard_answer)                              /*@ob C14.row-guard-is-the-members-answer */
 ;
 #endif
+#if UNIT_SEQ3
+void call_seq_action3(type_t FCT, event_t evt, fsm_t* fsm, stref_t state)
+__CPROVER_requires(FCT == g_anext && 0 <= g_anext && g_anext < g_nseq)           /*@ob C02,C14.actions-of-a-sequence-run-in-sequence-order-each-once */
+__CPROVER_requires(EV_EQ(evt, g_evt) && fsm == g_fsm && state == g_src)           /*@ob C14,C18.functor-gets-event-machine-state-unchanged */
+__CPROVER_assigns(g_anext)
+__CPROVER_ensures(g_anext == __CPROVER_old(g_anext) + 1)
+;
+void action_sequence_call3(event_t evt, fsm_t* fsm, stref_t state)
+__CPROVER_requires(EV_EQ(evt, g_evt) && fsm == g_fsm && state == g_src && g_anext == 0 && 0 <= g_nseq && g_nseq <= 1000000)
+__CPROVER_assigns(g_anext)
+__CPROVER_ensures(g_anext == g_nseq)                                                                      /*@ob C02,C14.every-action-of-the-sequence-has-run */
+;
+#endif
